@@ -11,6 +11,7 @@ import (
 	"io"
 	"os"
 	"regexp"
+	"runtime/debug"
 	"sort"
 	"runtime/pprof"
 	"strconv"
@@ -99,6 +100,22 @@ type kind struct {
 	mk      func() (interceptor.Interceptor, error)
 	probe   func(ic interceptor.Interceptor, ssrc uint32, seq uint16) (exists, fresh bool)
 	members []int // chain kinds: ids of the members
+	// the probe is a build-tag hook that may be missing in the tree under test: without it the state bits
+	// are not observable (mask 0)
+	hookOnly bool
+}
+
+func (k *kind) canProbe(ic interceptor.Interceptor) bool {
+	if k.probe == nil {
+		return false
+	}
+	if k.hookOnly {
+		_, ok := ic.(streamProber)
+
+		return ok
+	}
+
+	return true
 }
 
 type quietFactory struct{}
@@ -196,7 +213,8 @@ var kinds = []*kind{
 	{id: 9, name: "pacing", remote: false, perSSRC: false, mk: func() (interceptor.Interceptor, error) {
 		return pacing.NewInterceptor(pacing.Interval(tick), pacing.WithLoggerFactory(quietFactory{})).NewInterceptor("c11")
 	}},
-	{id: 10, name: "gcc", remote: false, perSSRC: false, mk: func() (interceptor.Interceptor, error) {
+	// the probe (the pacer's writer of the stream) exists only once the hook pkg/cc/export_c11_verif.go is in the tree
+	{id: 10, name: "gcc", remote: false, perSSRC: false, probe: hookProbe, hookOnly: true, mk: func() (interceptor.Interceptor, error) {
 		return fromFactory(cc.NewInterceptor(nil))
 	}},
 	{id: 11, name: "jitterbuffer", remote: true, perSSRC: true, probe: hookProbe, mk: func() (interceptor.Interceptor, error) {
@@ -523,6 +541,21 @@ func (r *runner) asyncAfter(from time.Time) int {
 	return n
 }
 
+// awaitEmissions waits until more writes about x than can be in flight have been seen since `from`, at most
+// one window; when the window ends with some writes but not more than the allowance (ambiguous: in flight,
+// or a generator that is still running on a starved machine) it waits up to two more windows.
+func (r *runner) awaitEmissions(x uint32, from time.Time, allowed int) {
+	for w := 0; w < 3; w++ {
+		deadline := time.Now().Add(unbindWin)
+		for time.Now().Before(deadline) && r.about(x, from, deadline) <= allowed {
+			time.Sleep(time.Millisecond)
+		}
+		if n := r.about(x, from, time.Now()); n == 0 || n > allowed {
+			return
+		}
+	}
+}
+
 type unbindMark struct {
 	step    int
 	x       uint32
@@ -542,8 +575,12 @@ func runScript(sc *script) {
 	r := &runner{k: k, ic: ic, sc: sc, readers: map[uint32]interceptor.RTPReader{}, writers: map[uint32]interceptor.RTPWriter{},
 		seq: map[uint32]uint16{}, retAt: map[int]time.Time{}}
 	sc.Mask = 0
-	if k.probe != nil {
+	if k.canProbe(ic) {
 		sc.Mask = 1
+	}
+	probe := k.probe
+	if sc.Mask == 0 {
+		probe = nil
 	}
 	ops := append(append([]op{}, sc.Ops...), op{K: "close"})
 	obs := make([][2]int, len(ops))
@@ -594,24 +631,21 @@ func runScript(sc *script) {
 		retMu.Unlock()
 		switch o.K {
 		case "bind":
-			if k.probe != nil {
-				if exists, fresh := k.probe(ic, o.X, r.seq[o.X]-2); exists && !fresh {
+			if probe != nil {
+				if exists, fresh := probe(ic, o.X, r.seq[o.X]-2); exists && !fresh {
 					obs[i][1] |= 1
 				}
 			}
 		case "unbind":
-			if k.probe != nil {
-				if exists, _ := k.probe(ic, o.X, r.seq[o.X]-2); exists {
+			if probe != nil {
+				if exists, _ := probe(ic, o.X, r.seq[o.X]-2); exists {
 					obs[i][1] |= 2
 				}
 			}
 			if k.perSSRC {
 				u := &unbindMark{step: i, x: o.X, ret: tRet, allowed: nBindW + 2, open: true}
 				unbinds = append(unbinds, u)
-				deadline := time.Now().Add(unbindWin)
-				for time.Now().Before(deadline) && r.about(o.X, tRet, deadline) <= u.allowed {
-					time.Sleep(time.Millisecond)
-				}
+				r.awaitEmissions(o.X, tRet, u.allowed)
 			}
 		case "close":
 			closeRet[i] = tRet
@@ -624,10 +658,7 @@ func runScript(sc *script) {
 				if !u.open || (o.K != "bindw" && u.x != o.X) {
 					continue
 				}
-				deadline := time.Now().Add(unbindWin)
-				for time.Now().Before(deadline) && r.about(u.x, u.ret, deadline) <= u.allowed {
-					time.Sleep(time.Millisecond)
-				}
+				r.awaitEmissions(u.x, u.ret, u.allowed)
 			}
 		}
 	}
@@ -1101,9 +1132,24 @@ func runAll(scs []*script) {
 	}
 }
 
+// pacing.NewInterceptor allocates a queue of 1 000 000 packet slots (56 MB) per interceptor: with 40 workers
+// on pacing scripts at once the harness needed 10 GB; at most heavyMax such interceptors are alive at a time
+const heavyMax = 5
+
+var heavySem = make(chan struct{}, heavyMax)
+
 func worker(wg *sync.WaitGroup, ch chan int, scs []*script) {
 	defer wg.Done()
 	for i := range ch {
+		if scs[i].Iid == 9 {
+			heavySem <- struct{}{}
+			pprof.Do(context.Background(), pprof.Labels("c11", strconv.Itoa(i)), func(context.Context) {
+				runScript(scs[i])
+			})
+			<-heavySem
+
+			continue
+		}
 		pprof.Do(context.Background(), pprof.Labels("c11", strconv.Itoa(i)), func(context.Context) {
 			runScript(scs[i])
 		})
@@ -1257,6 +1303,7 @@ func implFailures(scs []*script) []cq.ImplFailure {
 }
 
 func main() {
+	debug.SetMemoryLimit(2 << 30) // soft limit: collect early instead of letting garbage double the heap
 	o := cq.ParseFlags()
 	rng := o.Rand()
 	set := &cq.Set{
@@ -1385,6 +1432,12 @@ func main() {
 	}
 	t0 := time.Now()
 	runAll(scs)
+	if f := os.Getenv("C11_HEAPPROF"); f != "" { // debugging aid
+		if w, err := os.Create(f); err == nil {
+			_ = pprof.Lookup("allocs").WriteTo(w, 0)
+			_ = w.Close()
+		}
+	}
 	cset := &cq.Set{
 		Name: "c11c", Import: "IV.Check.C11bCheck", CaseType: "c11c_case",
 		Checks: []string{"c11c_mismatches", "c11c_spec_failures"},
